@@ -4,9 +4,9 @@ SPEC = {
     "gen": [],
     "streams": [
         {"name": "mux-c01", "cmd": "mux",
-         "args": {"quick": ["-mode", "c01", "-blocks", "20", "-runs", "4"],
-                  "thorough": ["-mode", "c01", "-blocks", "200", "-runs", "6"]},
-         "search_args": ["-mode", "c01", "-blocks", "40", "-runs", "8"],
+         "args": {"quick": ["-mode", "c01", "-blocks", "20", "-runs", "4", "-tieruns", "3", "-tieblocks", "14"],
+                  "thorough": ["-mode", "c01", "-blocks", "200", "-runs", "6", "-tieruns", "6", "-tieblocks", "60"]},
+         "search_args": ["-mode", "c01", "-blocks", "40", "-runs", "8", "-tieruns", "6", "-tieblocks", "30"],
          "timeout": 3600},
     ],
     "trusted_base": [
@@ -26,6 +26,6 @@ SPEC = {
 
 MANIFEST = {
     "technique": "Coq proof over a generic model of the ABCI multiplexer (all paths refine one reference execution; lifted to histories by induction) + four-way differential execution of seeded block histories on the real multiplexer with all real apps (different paths, local configs, backends, restarts, concurrent CheckTx/EstimateGas/queries/pruner)",
-    "level_text": "Theorems in coq/Props/C01.v hold for every instance of the generic multiplexer model (any state type, any deterministic applications, any decoder/auth handler): propose+cached, process-proposal, plain replay and restart-then-replay/process all equal the reference execution of the block on the committed state, also after arbitrary failed rounds that left a stale proposal cache (stale_rounds_harmless, up to a block-hash collision); outputs and committed state are equal for all local configurations and registration orders; lifted to arbitrary histories with interleaved CheckTx/simulation/pruning (replicas_agree); the proposer cache equals re-execution under the named commit-info hypothesis (refuted without it); dispatch order is the sorted name order. The tie to the code for the property itself is the harness: per seed a 4-validator genesis, blocks of 0-8 staking/governance/registry/beacon transactions (70 % valid), epoch transitions, vote patterns, duplicate-vote evidence, executed by FOUR real replicas on different paths/configs/backends with background CheckTx/EstimateGas/historical queries, compared after every height; the model is tied to the code on the proposal-cache reuse decisions (isEqual/needsExecution/resetProposalIfChanged) and the dispatch order observed through a read-only hook.",
+    "level_text": "Theorems in coq/Props/C01.v hold for every instance of the generic multiplexer model (any state type, any deterministic applications, any decoder/auth handler): propose+cached, process-proposal, plain replay and restart-then-replay/process all equal the reference execution of the block on the committed state, also after arbitrary failed rounds that left a stale proposal cache (stale_rounds_harmless, up to a block-hash collision); outputs and committed state are equal for all local configurations and registration orders; lifted to arbitrary histories with interleaved CheckTx/simulation/pruning (replicas_agree); the proposer cache equals re-execution under the named commit-info hypothesis (refuted without it); dispatch order is the sorted name order. The tie to the code for the property itself is the harness: per seed a 4-validator genesis (plus election-tie histories: 8 validator entities with EQUAL escrow, MaxValidators 3-4, no rewards, an election every 2 blocks, so stake ties straddle the cutoff at every election), blocks of 0-8 staking/governance/registry/beacon transactions (70 % valid), epoch transitions, vote patterns, duplicate-vote evidence, executed by FOUR real replicas on different paths/configs/backends with background CheckTx/EstimateGas/historical queries, compared after every height; the model is tied to the code on the proposal-cache reuse decisions (isEqual/needsExecution/resetProposalIfChanged) and the dispatch order observed through a read-only hook.",
     "level_note": "For C01 the applications are abstract in the Coq theorems: determinism of the REAL apps (map iteration order, reward/fee arithmetic, elections) is established only empirically by the replica comparison on the explored histories, not proved. The correspondence stream covers the cache decisions and app ordering only. Real goroutine interleavings, Badger and the MKVS are exercised, not modelled. Replicas run in one process (same Go map seed per process run; iteration order still varies per map instance).",
 }
